@@ -7,17 +7,22 @@ ap.add_argument('prop'); ap.add_argument('k')
 ap.add_argument('--what', required=True); ap.add_argument('--needs', required=True)
 ap.add_argument('--ran', required=True); ap.add_argument('--result', required=True)
 ap.add_argument('--also', default='')
+ap.add_argument('--note', default='')
 a = ap.parse_args()
 src = Path(f'/tmp/seed-{a.prop}/_seed')
 dst = Path(f'/verif/seeded/{a.prop}-{a.k}')
 dst.mkdir(parents=True, exist_ok=True)
 shutil.copy(src / f'change{a.k}.diff', dst / 'patch.diff')
 shutil.copy(src / f'demo{a.k}.py', dst / 'demo.py')
+if (src / 'NOTES.md').exists():
+    shutil.copy(src / 'NOTES.md', dst / 'NOTES.md')
 meta = {'id': f'{a.prop}-{a.k}', 'breaks_property': a.prop, 'what_it_breaks': a.what, 'needs_to_manifest': a.needs,
         'author': 'independent sub-agent given only the property text and a scratch worktree',
         'confirmed': 'demo.py exits 0/PASS on the clean scratch worktree and 1/FAIL with patch.diff applied; '
                      'the sub-agent reports the stock test suite unchanged (same failures as the clean tree)',
         'what_i_ran': a.ran, 'result': a.result}
+if a.note:
+    meta['note'] = a.note
 if a.also:
     meta['other_properties_that_also_fire'] = a.also
 (dst / 'meta.json').write_text(json.dumps(meta, indent=1) + '\n')
